@@ -28,5 +28,6 @@ End L.
 Lemma link_structure :
   Gen.Schedule.branches_assign_matching_beta_weights_ess = true /\ Gen.Schedule.logz_computed_at_chosen_beta = true
   /\ Gen.Schedule.finalize_writes_beta_ess_logz = true /\ Gen.Schedule.other_steps_writing_beta = 0
-  /\ Gen.Schedule.warmup_iteration_is_beta_equal_zero_in_train_resample_mutate = true.
+  /\ Gen.Schedule.warmup_iteration_is_beta_equal_zero_in_train_resample_mutate = true
+  /\ Gen.Schedule.reweighter_keeps_no_state_between_calls = true.
 Proof. repeat split. Qed.
